@@ -20,6 +20,21 @@ pub struct Witness {
 
 const T3: &str = "CREATE TABLE t(line = '(\\\\w+);([0-9-]*);([0-9-]*)', line[1] => k TEXT, line[2] => v INT, line[3] => w INT);";
 
+/// Marker of a witness of an OPEN finding whose outcome is EXACTLY the documented wrong answer of that finding. Only such
+/// an `Err` is reported under the finding's class (`Dxx:witness`, KNOWN-FINDING); any other failure of the witness — a
+/// panic, another error kind, a different wrong answer — is an unknown failure (`witness-failed-differently:Dxx`).
+pub const KNOWN_DEVIATION: &str = "known deviation: ";
+fn known(msg: String) -> String { format!("{}{}", KNOWN_DEVIATION, msg) }
+fn records(l: &[String]) -> Vec<&str> { l.iter().map(|s| s.as_str()).filter(|s| !s.is_empty()).collect() }
+/// `expected`: what the property demands; `deviation`: the records the open finding documents
+fn expect_lines_or_known(o: Outcome, expected: &[&str], deviation: &[&str]) -> Result<(), String> {
+    match &o {
+        Outcome::Lines(l) if records(l) == expected => Ok(()),
+        Outcome::Lines(l) if records(l) == deviation => Err(known(format!("expected {:?} got {}", expected, o.show()))),
+        _ => Err(format!("expected {:?} (or the documented deviation {:?}) got {}", expected, deviation, o.show())),
+    }
+}
+
 fn expect_lines(o: Outcome, expected: &[&str]) -> Result<(), String> {
     match &o {
         // blank separator lines after multi-row results are layout, not records
@@ -106,7 +121,9 @@ fn d09() -> Result<(), String> {
     expect_lines(run_batch(T3, "SELECT k FROM t WHERE regex_matches(k, '^a')", "ab;1;1\nb;1;1\n"), &["k: 'ab'"])
 }
 fn d10() -> Result<(), String> {
-    expect_lines(run_batch(T3, "SELECT k, COUNT(v) FROM t GROUP BY k", "a;1;1\nb;;2\n"), &["k: 'a', count1: 1", "k: 'b', count1: 0"])
+    // documented deviation (open): the group `b`, in which COUNT(v) creates no entry, is missing — and nothing else differs
+    expect_lines_or_known(run_batch(T3, "SELECT k, COUNT(v) FROM t GROUP BY k", "a;1;1\nb;;2\n"),
+        &["k: 'a', count1: 1", "k: 'b', count1: 0"], &["k: 'a', count1: 1"])
 }
 fn d11() -> Result<(), String> {
     expect_lines(
@@ -127,7 +144,12 @@ fn d14() -> Result<(), String> {
     )
 }
 fn d15() -> Result<(), String> {
-    expect_lines(run_batch(T3, "SELECT ARRAY_AGG(w) FROM t", "a;1;\nb;1;5\n"), &["array_agg0: {NULL, 5}"])
+    // documented deviation (open): the run is refused with `ExecutionError::CannotCreateArrayOfNullType`, nothing printed
+    let o = run_batch(T3, "SELECT ARRAY_AGG(w) FROM t", "a;1;\nb;1;5\n");
+    match &o {
+        Outcome::Error(e) if e == "exec: Cannot create array of null type after []" => Err(known(format!("expected [\"array_agg0: {{NULL, 5}}\"] got {}", o.show()))),
+        _ => expect_lines(o, &["array_agg0: {NULL, 5}"]),
+    }
 }
 // D63 (C03; fixed /repo 91aa1f4): TIMESTAMP op INTERVAL ignored the operator — `ts - iv`, `ts * iv`, `ts / iv` all answered `ts + iv`
 fn d63() -> Result<(), String> {
@@ -235,14 +257,21 @@ const R3: &str = "CREATE TABLE t(line = '^([^;]*);([0-9-]*);([0-9-]*)$', line[1]
 // D60 (C11): GROUP BY over REAL keys 0.0 / -0.0 (equal in the value order, printed differently): the table shown after
 // the second line fed incrementally must equal the batch table over both lines
 fn d60() -> Result<(), String> {
+    // documented deviation (open): the two tables are equal once `-0.0 ↦ 0.0` is applied to every value, and differ raw
+    // (follow mode shows the key `0.0`, batch mode `-0.0`); anything else — an error, another row, another cell — is not D60
     let lines: Vec<String> = vec!["0.0;;1".to_owned(), "-0.0;1;2".to_owned()];
     let q = "SELECT r, COUNT(v), PERCENTILE(w, 0.5) FROM t GROUP BY r";
     let follow = match run_incremental(R3, q, &lines) {
-        Ok(steps) => match steps.last().unwrap() { Some((_, rows)) => format!("{:?}", rows), None => "none".to_owned() },
+        Ok(steps) => match steps.last().unwrap() { Some((_, rows)) => rows.clone(), None => return Err("no table after line 2".to_owned()) },
         Err(o) => return Err(o.show()),
     };
-    let batch = match run_engine_batch(R3, q, &lines) { RowsOutcome::Rows { rows, .. } => format!("{:?}", rows), other => format!("{:?}", other) };
-    if follow == batch { Ok(()) } else { Err(format!("after line 2 follow mode shows {} but a batch run over both lines gives {}", follow, batch)) }
+    let batch = match run_engine_batch(R3, q, &lines) { RowsOutcome::Rows { rows, .. } => rows, other => return Err(format!("batch run: {:?}", other)) };
+    let show = |rows: &Vec<Vec<Value>>| format!("{:?}", rows);
+    let canon = |rows: &Vec<Vec<Value>>| -> Vec<Vec<Value>> { rows.iter().map(|r| r.iter().map(crate::engine_run::canon_zero_nan).collect()).collect() };
+    let msg = format!("after line 2 follow mode shows {} but a batch run over both lines gives {}", show(&follow), show(&batch));
+    if show(&follow) == show(&batch) { Ok(()) }
+    else if show(&canon(&follow)) == show(&canon(&batch)) { Err(known(msg)) }
+    else { Err(msg) }
 }
 // D65 (C11 at program level): follow mode, CSV format, aggregate statement: every screen must be the batch output over the
 // lines consumed so far — the second refresh must show the header again
@@ -353,12 +382,24 @@ fn d44() -> Result<(), String> {
     if a == b && h(&a) != h(&b) { return Err("0.0 == -0.0 but they hash differently".to_owned()); }
     expect_lines(run_batch(R1, "SELECT DISTINCT r FROM t", "0.0\n-0.0\n"), &["r: 0.00"])
 }
+// D67 (C04; fixed /repo d5e74f6): STRING_AGG swallowed the delimiter after a leading EMPTY text: of '', 'a' it gave 'a' (and of
+// 'a', '' it gave 'a,'); an empty TEXT is a non-NULL value, so the join of all non-NULL values is ',a'
+fn d67() -> Result<(), String> {
+    const T67: &str = "CREATE TABLE t(line = '^([^;]*);([0-9]*)$', line[1] => s TEXT, line[2] => v INT);";
+    expect_lines(run_batch(T67, "SELECT STRING_AGG(s, ',') FROM t", ";1\na;2\n"), &["string_agg0: ',a'"])?;
+    expect_lines(run_batch(T67, "SELECT STRING_AGG(s, ',') FROM t", ";1\n;2\na;3\n;4\n"), &["string_agg0: ',,a,'"])
+}
 fn d45() -> Result<(), String> {
     // INT vs REAL through the derived order (used for GROUP BY keys / array_unique)
     let a = Value::Int(5);
     let b = Value::Float(Float(1.0));
-    if a < b { return Err("Int(5) < Float(1.0) in the derived order".to_owned()); }
-    Ok(())
+    // documented deviation (open): every INT is below every REAL — `Less` here and `Greater` the other way round
+    use std::cmp::Ordering;
+    match (a.cmp(&b), b.cmp(&a)) {
+        (Ordering::Greater, Ordering::Less) => Ok(()),
+        (Ordering::Less, Ordering::Greater) => Err(known("Int(5) < Float(1.0) in the derived order".to_owned())),
+        other => Err(format!("cmp(Int(5), Float(1.0)), cmp(Float(1.0), Int(5)) = {:?}", other)),
+    }
 }
 fn d49() -> Result<(), String> {
     expect_lines(run_batch(T3, "SELECT k FROM t WHERE v IN (1.0, 7.5)", "a;1;1\nb;2;1\n"), &["k: 'a'"])
@@ -460,6 +501,7 @@ pub fn all() -> Vec<Witness> {
         w!("D23", &["C08"], "aggregate DISTINCT without HAVING keeps duplicates", d23),
         w!("D63", &["C03"], "TIMESTAMP - INTERVAL (and * and /) adds the interval", d63),
         w!("D64", &["C03"], "make_timestamp with the README's seven arguments is an undefined function", d64),
+        w!("D67", &["C04"], "STRING_AGG swallows the delimiter after a leading empty text", d67),
         w!("D69", &["C03"], "a condition (WHERE, HAVING, operand of AND / OR, WHEN) that is neither BOOLEAN nor NULL counts as false instead of being an error", d69),
         w!("D66", &["C02"], "a JSON number with fraction / exponent is not the nearest REAL (one unit in the last place off f64::from_str of the same text)", d66),
         w!("D60", &["C11"], "REAL keys 0.0 / -0.0: follow mode and batch mode show different representatives of one group", d60),
